@@ -64,7 +64,7 @@ fn mxp1(a: &[i64], k: i64) -> Vec<i64> {
 
 pub fn run(cfg: &Cfg, rep: &mut Report) {
     let mut rng = cfg.rng(&format!("c09-{BE_NAME}"));
-    let total = cfg.budget(60_000, 3_000_000) / 4;
+    let total = cfg.budget(2_000_000, 80_000_000) / 4;
     let ns_small: &[usize] = &[1, 2, 4, 8, 16, 32, 64];
     let ns_large: &[usize] = &[128, 256, 1024, 4096];
 
